@@ -22,7 +22,8 @@ Theorem C13_gen_tables_agree :
   act ast_table FTupleFixed = act rt_table FTupleFixed /\ act ast_table FType = act rt_table FType /\
   act ast_table FAnnotated = act rt_table FAnnotated /\ act ast_table FFinal = act rt_table FFinal /\
   act ast_table FClassVar = act rt_table FClassVar /\ act ast_table FUnpack = act rt_table FUnpack /\
-  act ast_table FCallable = act rt_table FCallable /\ act ast_table FGenericClass = act rt_table FGenericClass.
+  act ast_table FCallable = act rt_table FCallable /\ act ast_table FGenericClass = act rt_table FGenericClass /\
+  act ast_table FTypeAlias = act rt_table FTypeAlias.
 Proof. exact tables_agree. Qed.
 Print Assumptions C13_gen_tables_agree.
 
